@@ -15,7 +15,7 @@ Definition stats := Eval vm_compute in
 Print stats.
 
 (* the lock protocol of every reachable function checks (balanced, never re-acquired, acquired in rank order), and no
-   Process / Close / Sender.Send callback is reached under Broker.lock (in particular: RemoveNode / RemovePipelineAndNodes
+   Process / Close / Reopen / Sender.Send callback is reached under Broker.lock (in particular: RemoveNode / RemovePipelineAndNodes
    close nodes after unlocking) *)
 Theorem no_broker_lock_at_user_callback_obligation :
   check_program (contracts_C12 program) program entries lit_callees unsupported = [].
